@@ -15,6 +15,13 @@ A case is a scripted history for ONE master/slave pair:
          ['down'] ['await_offline'] ['up'] ['await_online']          — network switch / wait for the master to notice
          ['check']                                                   — observe (GET /ports, GET /devices on the master)
          ['rfail', pid]                                              — the next PATCH the device gets for that port answers 502
+         ['announce']                                                — the device changes the value of its first enabled port
+                                                                       (display_name of its first port if none is enabled):
+                                                                       in mode 'push' this is how a webhook-driven slave
+                                                                       "shows up" (its event makes the master push what is
+                                                                       pending and refresh its mirror)
+         ['restart']                                                 — the master restarts (slaves package torn down and
+                                                                       re-loaded from the persisted records)
          ['when', 'listen'|'ports'|'device', delay, [steps…]]        — wait until the device next receives that request,
                                                                        then `delay`, then the nested (device-side) steps:
                                                                        changes timed INTO the reconnect / sync window
@@ -209,6 +216,15 @@ async def run_real(hub, case) -> Real:
                 sim.fail_next.add(st[1])
             elif op == 'rdrop':
                 sim.drop_next.add(st[1])
+            elif op == 'announce':
+                en = [pid for pid, p_ in sim.ports.items() if p_['attrs'].get('enabled')]
+                if en:
+                    cur = sim.ports[en[0]]['value']
+                    sim.set_value(en[0], (not cur) if isinstance(cur, bool) else (cur or 0) + 1)
+                elif sim.ports:
+                    pid = next(iter(sim.ports))
+                    cur = sim.ports[pid]['attrs'].get('display_name')
+                    sim.set_port_attrs(pid, {'display_name': 'here' if cur != 'here' else 'here again'})
             elif op == 'flapdown':
                 sim.set_reachable(False)
             elif op == 'flapup':
@@ -217,7 +233,8 @@ async def run_real(hub, case) -> Real:
         window = None
         for idx, st in enumerate(case['steps']):
             op = st[0]
-            if op in ('wait', 'rvalue', 'rattr', 'rattrdel', 'rattrset', 'radd', 'rremove', 'rdev', 'rfail', 'rdrop', 'flapdown', 'flapup'):
+            if op in ('wait', 'rvalue', 'rattr', 'rattrdel', 'rattrset', 'radd', 'rremove', 'rdev', 'rfail', 'rdrop', 'flapdown', 'flapup',
+                      'announce'):
                 await remote_step(st)
             elif op == 'restart':
                 before = await observe(hub, sim)
@@ -225,6 +242,10 @@ async def run_real(hub, case) -> Real:
                 await hub.restart_slaves()
                 for _ in range(5):
                     await asyncio.sleep(0)
+                if mode == 'push':
+                    # a slave that is neither listened to nor polled gets its ports re-created from the persisted records
+                    # by a fire-and-forget task started from enable()
+                    await asyncio.sleep(0.2)
                 after = await observe(hub, sim)
                 r.restarts.append({'idx': idx, 't': hub.loop.time(), 'before': before, 'after': after,
                                    'log_len': len(sim.log)})
@@ -288,7 +309,7 @@ async def run_real(hub, case) -> Real:
                 lu = r.windows[-1]['log_up'] if r.windows and r.windows[-1]['log_up'] is not None else 0
                 for _ in range(400):
                     d = (await hub.get_devices())
-                    if d and d[0]['online'] and any(e['method'] == 'GET' and e['path'].rstrip('/') == '/ports'
+                    if d and (d[0]['online'] or mode == 'push') and any(e['method'] == 'GET' and e['path'].rstrip('/') == '/ports'
                                                     and e.get('status') == 200 for e in sim.log[lu:]):
                         break
                     await asyncio.sleep(0.5)
@@ -531,12 +552,15 @@ def run_model(case, real: Real, driver, fix=(1, 1, 1)):
         if any(q[0] != 'GET' for q in real_reqs):
             tags.add('reconnect-with-pushes')
         model_online = ports is not None and not (kind == 'online' and dev is None)
+        if ports is not None:
+            after_restart[0] = False
         if mode == 'push':
             model_online = False           # a slave that is neither listened to nor polled is never "online"
         window = None
 
     consumed = set()
     stopped = [False]
+    after_restart = [False]     # a replayed restart (mode push) not yet followed by a completed refresh of the mirror
     unstable = {it.port(p['id']) for p in case['ports'] if not p.get('enabled', True)}
     unstable |= {it.port(st[1]) for st in flat_steps(case)
                  if st[0] == 'rremove' or (st[0] in ('rattr', 'mattr') and st[2] == 'enabled')}
@@ -657,9 +681,18 @@ def run_model(case, real: Real, driver, fix=(1, 1, 1)):
         elif tag == 'started':
             pass
         elif tag == 'restart':
-            # what survives a restart is what had been persisted: not modelled; the replay stops here, the oracle goes on
-            stopped[0] = True
             tags.add('restart')
+            if mode == 'push' and started:
+                # webhook-driven slave: the ports are rebuilt from the persisted records (Model/SlaveRestart.lean,
+                # restartPermOffline with the pending value restored as load_from_data does since 8847295)
+                ask('restart-permoff 1')
+                window = None
+                after_restart[0] = True
+                tags.add('restart-replayed')
+            else:
+                # listening / polling slave: what survives a restart there is not modelled; the replay stops here, the
+                # oracle goes on
+                stopped[0] = True
         elif tag == 'pushed':
             ev = it.event(e[2])
             if e[2]['type'] in ('port-update', 'port-add'):
@@ -704,6 +737,15 @@ def run_model(case, real: Real, driver, fix=(1, 1, 1)):
                 hid = v.pop('hidden')
                 if k in mcmp and hid:
                     mcmp[k]['attrs'] = {x: y for x, y in mcmp[k]['attrs'].items() if x not in hid}
+            if after_restart[0]:
+                # between a restart and the next completed refresh the record read back is the one of the last save
+                # (the model takes the state at the restart): only what the property is about is compared — which
+                # names are pending and the user's values of the pending attributes (the pending value: below)
+                tags.add('checked-between-restart-and-refresh')
+                for cmp_ in (rports, mcmp):
+                    for v in cmp_.values():
+                        v.pop('value', None)
+                        v['attrs'] = {x: y for x, y in v['attrs'].items() if x in v['prov']}
             if rports != mcmp:
                 bad = sorted(set(rports) ^ set(mcmp)) or [k for k in rports if rports[k] != mcmp[k]]
                 fail = Failure('correspondence', f'check #{e[1]}: master GET /ports differs from the model for port(s) '
@@ -811,6 +853,30 @@ def oracle_c13(case, real: Real):
             if n not in ('webhooks', 'reverse') and a['attrs'].get(n) != b['attrs'].get(n):
                 return Failure('property', f'master restart #{ri}: pending device attribute {n} changed from '
                                f'{b["attrs"].get(n)!r} to {a["attrs"].get(n)!r}', where='restart-kept'), tags
+        # a slave that is neither listened to nor polled gets its PORTS back from the persisted records right away:
+        # what was pending on a port before the restart is pending afterwards, with the user's values
+        if case['mode'] != 'push':
+            continue
+        for rid, pb in rs_['before']['master'].items():
+            if not pb.get('provisioning'):
+                continue
+            pa = rs_['after']['master'].get(rid)
+            tags.add('restart-port-checked')
+            if pa is None or sorted(pa.get('provisioning', [])) != sorted(pb['provisioning']):
+                return Failure('property', f'master restart #{ri} (step {rs_["idx"]}): edits of {rid} reported as pending '
+                               f'before the restart {sorted(pb["provisioning"])}, after it '
+                               f'{None if pa is None else sorted(pa.get("provisioning", []))}',
+                               where='restart-port-pending'), tags
+            for n in pb['provisioning']:
+                if n != 'value' and pa.get(master_name(n)) != pb.get(master_name(n)):
+                    return Failure('property', f'master restart #{ri}: pending attribute {rid}.{n} changed from '
+                                   f'{pb.get(master_name(n))!r} to {pa.get(master_name(n))!r}',
+                                   where='restart-port-kept'), tags
+            if 'value' in pb['provisioning']:
+                vb, va = rs_['before']['persisted_value'].get(rid, 'n/a'), rs_['after']['persisted_value'].get(rid, 'n/a')
+                if 'n/a' not in (vb, va) and vb != va:
+                    return Failure('property', f'master restart #{ri}: pending value of {rid} changed from {vb!r} to '
+                                   f'{va!r}', where='restart-port-kept'), tags
     for wi, w in enumerate(real.windows):
         if w['t_up'] is None or w['t_offline'] is None:
             continue
@@ -934,7 +1000,8 @@ def oracle_c13(case, real: Real):
                                    where='params-pushed-once'), tags
                 tags.add(name + '-pushed')
         # (3) afterwards nothing is pending: first check after this outage
-        after = next((c for c in real.checks if c['t'] > w['t_up'] and c['device'] and c['device']['online']), None)
+        after = next((c for c in real.checks if c['t'] > w['t_up'] and c['device'] and
+                      (c['device']['online'] or case['mode'] == 'push')), None)
         if after is not None:
             later_edit = any(ed['t'] > w['t_up'] and ed['t'] < after['t'] and not ed['sent'] for ed in real.edits)
             if not later_edit:
